@@ -88,7 +88,12 @@ def toCaller (c : Conv) (ty : Ty) (v : Int) : Int :=
   | .f32 => intTimes f32 (if c.normF then pow2 (-31) else pow2 (-8)) v
   | .f64 => intTimes f64 (if c.normD then pow2 (-31) else pow2 (-8)) v
 
-/-- staging: short/float/double callers go through `ubuf.ibuf` (2048 ints), int callers in one inner call -/
-def chunkOf (ty : Ty) : Nat := if ty = .s32 then 0 else 2048
+/-- staging: short/float/double callers go through `ubuf.ibuf` (2048 ints) rounded down to whole frames
+    (`bufferlen -= bufferlen % channels`), int callers in one inner call -/
+def chunkOf (ch : Nat) (ty : Ty) : Nat := if ty = .s32 then 0 else 2048 - 2048 % ch
+
+/-- the rule before the repair of KF-PAF24-CHUNK: pieces of 2048 items whatever the channel count, so that a
+    piece could end inside a frame and `count / channels` dropped the partial frame -/
+def chunkOfOld (ty : Ty) : Nat := if ty = .s32 then 0 else 2048
 
 end Sf.Paf24
